@@ -135,10 +135,9 @@ theorem no_help_shortcut_for_launchers (tokens : List String) (cwd : String) (re
 
 /-! ### (c) pure wrappers -/
 
-/-- the plain forms: nothing but the wrapper's own numbers and flags is skipped -/
+/-- the plain forms: nothing but the wrapper's own duration and flags is skipped -/
 theorem skip_plain (fwa : WrapOpts) (c : String) (cs : List String)
-    (hnum : Py.isDigitStr c = false) (hnum2 : Py.isDigitStr (Py.removeChar c '.') = false)
-    (hdur : (fwa.duration && isDuration c) = false)
+    (hdur : (fwa.duration && (Py.isDigitStr c || Py.isDigitStr (Py.removeChar c '.') || isDuration c)) = false)
     (hfwa : c ∉ fwa.flags)
     (hflag : Py.startsWith c "-" = false) :
     skipWrapperArgs fwa (c :: cs) = c :: cs := by
@@ -149,39 +148,61 @@ theorem skip_plain (fwa : WrapOpts) (c : String) (cs : List String)
       have : c = "--" := by simpa using hc
       subst this
       revert hflag; decide
-  simp [skipWrapperArgs, skipWrapperAux, hnum, hnum2, hflag, hne, hfwa, hdur]
+  simp [skipWrapperArgs, skipWrapperAux, hflag, hne, hfwa, hdur]
 
-theorem skip_double_dash (fwa : WrapOpts) (cs : List String) (hfwa : "--" ∉ fwa.flags) :
-    skipWrapperArgs fwa ("--" :: cs) = cs := by
+/-- a wrapper that takes no duration (nice, nohup, command, strace …) skips no number: `command 30 x` names the program `30` -/
+theorem skip_no_number (fwa : WrapOpts) (n : String) (cs : List String) (hd : fwa.duration = false)
+    (hfwa : n ∉ fwa.flags) (hflag : Py.startsWith n "-" = false) :
+    skipWrapperArgs fwa (n :: cs) = n :: cs :=
+  skip_plain fwa n cs (by simp [hd]) hfwa hflag
+
+theorem skipAux_double_dash (fwa : WrapOpts) (dur : Bool) (cs : List String) (hfwa : "--" ∉ fwa.flags) :
+    skipWrapperAux fwa false dur ("--" :: cs) = cs := by
   have h1 : Py.isDigitStr "--" = false := by decide +kernel
   have h2 : Py.isDigitStr (Py.removeChar "--" '.') = false := by decide +kernel
   have h3 : isDuration "--" = false := by decide +kernel
-  simp [skipWrapperArgs, skipWrapperAux, h1, h2, h3, hfwa]
+  simp [skipWrapperAux, h1, h2, h3, hfwa]
 
-theorem skip_number (fwa : WrapOpts) (n : String) (cs : List String) (hn : Py.isDigitStr n = true) :
-    skipWrapperArgs fwa (n :: cs) = skipWrapperArgs fwa cs := by
-  simp [skipWrapperArgs, skipWrapperAux, hn]
+theorem skip_double_dash (fwa : WrapOpts) (cs : List String) (hfwa : "--" ∉ fwa.flags) :
+    skipWrapperArgs fwa ("--" :: cs) = cs := skipAux_double_dash fwa _ cs hfwa
+
+/-- `timeout 30s cmd`, `timeout 1.5m cmd`, `timeout 5 cmd`: the duration – one word – is skipped … -/
+theorem skip_duration (fwa : WrapOpts) (d : String) (cs : List String) (hd : fwa.duration = true)
+    (hdur : (Py.isDigitStr d || Py.isDigitStr (Py.removeChar d '.') || isDuration d) = true) :
+    skipWrapperArgs fwa (d :: cs) = skipWrapperAux fwa false false cs := by
+  simp [skipWrapperArgs, skipWrapperAux, hd, hdur]
+
+/-- … and the word after it is the command, whatever it looks like (`timeout 5 10 x` runs `10`) -/
+theorem skip_after_duration (fwa : WrapOpts) (c : String) (cs : List String)
+    (hfwa : c ∉ fwa.flags) (hflag : Py.startsWith c "-" = false) :
+    skipWrapperAux fwa false false (c :: cs) = c :: cs := by
+  have hne : (c == "--") = false := by
+    cases hc : c == "--" with
+    | false => rfl
+    | true =>
+      have : c = "--" := by simpa using hc
+      subst this
+      revert hflag; decide
+  simp [skipWrapperAux, hflag, hne, hfwa]
 
 /-- `-n 5`, `-s KILL`: an option of the table takes the next word with it -/
 theorem skip_flag_with_arg (fwa : WrapOpts) (f a : String) (cs : List String) (hf : f ∈ fwa.flags)
-    (hn : Py.isDigitStr f = false) (hn2 : Py.isDigitStr (Py.removeChar f '.') = false)
-    (hdur : (fwa.duration && isDuration f) = false) :
-    skipWrapperArgs fwa (f :: a :: cs) = skipWrapperArgs fwa cs := by
-  simp [skipWrapperArgs, skipWrapperAux, hn, hn2, hf, hdur]
+    (hdur : (fwa.duration && (Py.isDigitStr f || Py.isDigitStr (Py.removeChar f '.') || isDuration f)) = false) :
+    skipWrapperArgs fwa (f :: a :: cs) = skipWrapperAux fwa false fwa.duration cs := by
+  simp [skipWrapperArgs, skipWrapperAux, hf, hdur]
 
 theorem skip_flag (fwa : WrapOpts) (f : String) (cs : List String) (hf : Py.startsWith f "-" = true) (hd : f ≠ "--")
     (hfwa : f ∉ fwa.flags)
-    (hn : Py.isDigitStr f = false) (hn2 : Py.isDigitStr (Py.removeChar f '.') = false)
-    (hdur : (fwa.duration && isDuration f) = false) :
-    skipWrapperArgs fwa (f :: cs) = skipWrapperArgs fwa cs := by
-  simp [skipWrapperArgs, skipWrapperAux, hn, hn2, hf, hd, hfwa, hdur]
+    (hdur : (fwa.duration && (Py.isDigitStr f || Py.isDigitStr (Py.removeChar f '.') || isDuration f)) = false) :
+    skipWrapperArgs fwa (f :: cs) = skipWrapperAux fwa false fwa.duration cs := by
+  simp [skipWrapperArgs, skipWrapperAux, hf, hd, hfwa, hdur]
 
-/-- `timeout 30s cmd`, `timeout 1.5m cmd`: the duration is skipped, the command found -/
-theorem skip_duration (fwa : WrapOpts) (d : String) (cs : List String) (hd : fwa.duration = true) (hdur : isDuration d = true) :
-    skipWrapperArgs fwa (d :: cs) = skipWrapperArgs fwa cs := by
-  by_cases h1 : (Py.isDigitStr d || Py.isDigitStr (Py.removeChar d '.')) = true
-  · simp only [skipWrapperArgs, skipWrapperAux, h1, ↓reduceIte]
-  · simp [skipWrapperArgs, skipWrapperAux, h1, hd, hdur]
+/-- T0: the wrapper loop's DURATION test in the source is the one the model implements: for `timeout` only, the
+    pattern `isDuration` transcribes, and at most once -/
+theorem wrapper_duration_facts :
+    Generated.wrapperDurationCommands = ["timeout"]
+      ∧ Generated.wrapperDurationPattern = "(\\d+\\.?\\d*|\\.\\d+)[smhd]?"
+      ∧ Generated.wrapperDurationOnce = true := by decide
 
 example : isDuration "30s" = true ∧ isDuration "1.5m" = true ∧ isDuration ".5" = true ∧ isDuration "2h" = true
     ∧ isDuration "5x" = false ∧ isDuration "7z" = false ∧ isDuration "s" = false ∧ isDuration "1.2.3" = false
